@@ -25,7 +25,11 @@ import (
 
 	"google.golang.org/grpc"
 	"google.golang.org/grpc/codes"
+	"google.golang.org/grpc/credentials/insecure"
+	"google.golang.org/grpc/health"
+	healthpb "google.golang.org/grpc/health/grpc_health_v1"
 	"google.golang.org/grpc/metadata"
+	"google.golang.org/grpc/reflection"
 	"google.golang.org/grpc/stats"
 	"google.golang.org/grpc/status"
 	"google.golang.org/protobuf/proto"
@@ -345,6 +349,32 @@ func c09Setup() *c09Env {
 		}
 		e.mux[cfg] = m
 	}
+	// history: a proxied backend (grpc-go health service + reflection) is registered on every mux and
+	// dropped again; its methods must then be unknown methods, not a crash
+	bsrv := grpc.NewServer()
+	healthpb.RegisterHealthServer(bsrv, health.NewServer())
+	reflection.Register(bsrv)
+	blis, err := net.Listen("tcp", "127.0.0.1:0")
+	if err != nil {
+		panic(err)
+	}
+	go bsrv.Serve(blis)
+	bcc, err := grpc.Dial(blis.Addr().String(), grpc.WithTransportCredentials(insecure.NewCredentials()))
+	if err != nil {
+		panic(err)
+	}
+	for cfg := 0; cfg < 4; cfg++ {
+		ctx, cancel := context.WithTimeout(context.Background(), 10*time.Second)
+		if err := e.mux[cfg].RegisterConn(ctx, bcc); err != nil {
+			panic("C09 RegisterConn: " + err.Error())
+		}
+		cancel()
+		if !e.mux[cfg].DropConn(context.Background(), bcc) {
+			panic("C09 DropConn: the backend was not registered")
+		}
+	}
+	bcc.Close()
+	bsrv.Stop()
 	for _, f := range fds {
 		sds := f.Services()
 		for i := 0; i < sds.Len(); i++ {
@@ -857,6 +887,8 @@ var c09GrpcMethods = []string{
 	"/verif.c09.Rsvc/ServerStream", "/verif.c09.Rsvc/ClientStream", "/verif.c09.Rsvc/Bidi", "/verif.c09.Rsvc/Upload",
 	"/larking.testpb.Messaging/GetMessageOne", "/larking.testpb.Messaging/UpdateMessageBody", "/larking.testpb.Files/LargeUploadDownload",
 	"/larking.testpb.ChatRoom/Chat", "/larking.testpb.Complex/Check", "/verif.c09.Rsvc/Nope", "/verif.c09.Nope/Plain",
+	// methods of a backend that was registered with RegisterConn and dropped again (c09Setup)
+	"/grpc.health.v1.Health/Check", "/grpc.health.v1.Health/Watch",
 }
 
 var c09WSPaths = []string{"/c09/ws/room", "/c09/wsq/room", "/v1/rooms/general", "/c09/ws/" + strings.Repeat("r", 300)}
